@@ -935,6 +935,19 @@ void reset_destruct_object_limits() {
   restrict_destruct = NULL;
 }
 
+/* The two guards are part of the state an error context restores: a catch() inside create() (load in
+ * progress) or inside move_or_destruct() must continue with the values of its catch point, and every
+ * other recovery point with the values it was entered with. */
+void save_object_limits (int *load_depth, object_t **restricted) {
+  *load_depth = num_objects_this_thread;
+  *restricted = restrict_destruct;
+}
+
+void restore_object_limits (int load_depth, object_t *restricted) {
+  num_objects_this_thread = load_depth;
+  restrict_destruct = restricted;
+}
+
 #ifdef NEOLITH_VERIF
 /* verification hook: read the destruct restriction guard (static above) */
 object_t *verif_restrict_destruct (void) { return restrict_destruct; }
